@@ -526,15 +526,8 @@ func (s *HASyncer) standbyLoop() {
 		default:
 		}
 
-		// Perform initial full sync
-		if err := s.performFullSync(); err != nil {
-			s.logger.Error("Full sync failed", zap.Error(err))
-			s.recordError(err)
-			s.waitReconnect()
-			continue
-		}
-
-		// Connect to SSE stream
+		// Attach to the SSE stream, then take the full snapshot (see
+		// connectToStream): every change made after the snapshot is on the stream.
 		if err := s.connectToStream(); err != nil {
 			s.logger.Error("Stream connection failed", zap.Error(err))
 			s.recordError(err)
@@ -629,6 +622,14 @@ func (s *HASyncer) connectToStream() error {
 	if resp.StatusCode != http.StatusOK {
 		body, _ := io.ReadAll(resp.Body)
 		return fmt.Errorf("server returned %d: %s", resp.StatusCode, string(body))
+	}
+
+	// The active registers this stream before it answers, so from here on every
+	// change it pushes is queued for us. Take the snapshot now: a change made
+	// before the snapshot is in it, a change made after it is on the stream
+	// (one made in between is in both, and is re-applied in order).
+	if err := s.performFullSync(); err != nil {
+		return fmt.Errorf("full sync: %w", err)
 	}
 
 	s.mu.Lock()
